@@ -14,7 +14,7 @@ import corpus, gopipe
 LEVEL = "model_checking"
 
 ALPHABET = ["fn", "let", "x", "1", "1.5", "2i8", '"s"', '"', "\\\\m\n", "\\", "(", ")", "{", "}", "[", ",", ";", ".", "+", "-", "=", "|",
-            " ", "\n", "// c\n", "é", "😀", "@", "::", "=>"]
+            " ", "\n", "// c\n", "é", "😀", "@", "::", "=>", "\r\n", "\r", "\t"]
 
 
 def texts(tier, rnd):
@@ -35,6 +35,10 @@ def texts(tier, rnd):
     # corpus files and seeded mutations of them (byte-level: delete / duplicate / swap / insert alphabet symbol; cut at a char boundary)
     srcs = [open(c["src"], encoding="utf-8").read() for c in corpus.single_file_cases()]
     out += srcs
+    # the same files with Windows line endings, with a byte-order mark, and with tabs for indentation
+    out += [s.replace("\n", "\r\n") for s in srcs[:: (6 if tier == "quick" else 1)]]
+    out += ["\ufeff" + s for s in srcs[:: (12 if tier == "quick" else 2)]]
+    out += [s.replace("    ", "\t") for s in srcs[:: (12 if tier == "quick" else 2)]]
     for _ in range(400 if tier == "quick" else 6000):
         s = rnd.choice(srcs)
         for _ in range(rnd.randint(1, 3)):
